@@ -163,3 +163,23 @@ func ReadAllFrom(r avro.Reader, rt reflect.Type) ([]reflect.Value, error) {
 	})
 	return out, err
 }
+
+// Session is a step-wise handle on a real Encoder[T].
+type Session interface {
+	Encode(v reflect.Value) error
+	Flush() error
+}
+
+type staticSession[T any] struct{ enc *avro.Encoder[T] }
+
+func (s staticSession[T]) Encode(v reflect.Value) error { return s.enc.Encode(v.Addr().Interface().(*T)) }
+func (s staticSession[T]) Flush() error                 { return s.enc.Flush() }
+
+// NewStaticSession calls NewEncoderFor[T] (which writes the header to w).
+func NewStaticSession[T any](w io.Writer, comp avro.Compression, blockSize int) (Session, error) {
+	enc, err := avro.NewEncoderFor[T](w, comp, blockSize)
+	if err != nil {
+		return nil, err
+	}
+	return staticSession[T]{enc}, nil
+}
